@@ -147,8 +147,16 @@ def p1_fenv_pairing(ctx: Ctx):
     q = 'CppEmitter._visit_context'
     fn = ctx.fn(EMITTER, q)
     withs = [s for s in walk_no_nested(fn) if isinstance(s, ast.With)]
-    good = len(withs) == 1 and norm(withs[0].items[0].context_expr) == 'self._fenv_scope(rctx.rm)' and norm(withs[0].body[0]) == 'self._visit_block(stmt.body, ctx)'
-    ctx.check(good, EMITTER, fn, q, 'float with-block: body emitted under _fenv_scope(<its rounding mode>)', 'changed')
+    own = [w for w in withs if norm(w.items[0].context_expr) == 'self._fenv_scope(rctx.rm)' and norm(w.body[0]) == 'self._visit_block(stmt.body, ctx)']
+    good = len(own) == 1 and fn.body[-1] is own[0]
+    ctx.check(good, EMITTER, fn, q, 'float with-block: body emitted under _fenv_scope(<its rounding mode>)', 'the float path no longer ends in the block under its own mode')
+    # (e) an exact block sets no mode of its own; inside a live round-toward-negative scope its exact machine sums would
+    # come out -0 where they cancel (the interpreter gives +0), so there it is bracketed by a switch to nearest
+    parents = parent_map(fn)
+    exact = [w for w in withs if norm(w.items[0].context_expr) == 'self._fenv_scope(RM.RNE)' and any(norm(b) == 'self._visit_block(stmt.body, ctx)' for b in w.body)]
+    guarded = [w for w in exact if any('rctx is REAL' in norm(g) and 'RM.RTN' in norm(g) and arm == 'then' for g, arm in guards_of(fn, w, parents))]
+    ctx.check(bool(guarded), EMITTER, guarded[0] if guarded else fn, q, 'an exact (REAL) block inside a live round-toward-negative scope is emitted under round-to-nearest',
+              'emitted as a pass-through: `with RTN: ... with fp.REAL: r = p - q` returns -0 for p = q = 1.5 in every compiled setting, the interpreter +0')
     vr = ctx.fn(EMITTER, 'CppEmitter._validate_context_rm') if repo.has_func(EMITTER, 'CppEmitter._validate_context_rm') else None
     if vr is not None:
         ctx.check('rctx.rm not in _FE_RM_MACRO' in norm(vr, 100000), EMITTER, vr, 'CppEmitter._validate_context_rm', 'a rounding mode fesetround cannot express is refused', 'changed')
@@ -563,6 +571,8 @@ RULES = [
 from ..selftest import Mutant  # noqa: E402
 
 MUTANTS = [
+    Mutant('exact-block-under-the-live-downward-mode', EMITTER, "            if rctx is REAL and self._current_rm is RM.RTN:", "            if False:", 'C11.P1',
+           'finding F139 before its repair: 1.5 - 1.5 under REAL inside an RTN scope compiles to -0'),
     Mutant('chain-middle-operand-written-twice', EMITTER, "        if any(not isinstance(a, Var | RealVal | BoolVal) for a in e.args[1:-1]):", "        if False:", 'C11.G4',
            'finding F116 before its repair: 0 < bump(xs) < 10 runs bump twice'),
     Mutant('chain-operands-bound-last-first', EMITTER, "        body = [f'auto&& {names[0]} = {args[0]};']\n        for i, op in enumerate(e.ops):\n            body.append(f'auto&& {names[i + 1]} = {args[i + 1]};')\n",
